@@ -69,6 +69,31 @@ def createDisclosureProof (pk : PublicKey) (sig : CLSignature) (attrs : List Int
 def timestampContributions (attrs : List Int) (disclosed : List Int) : List Int :=
   (List.range attrs.length).map fun (i : Nat) => if disclosed.contains (Int.ofNat i) then attrs.getD i 0 else 0
 
+/-! ### range proofs: when can the honest prover commit (rangeproof/proof.go:194-211, 283-312) -/
+
+/-- `SquaresTable.Ld()` for a table with `len` entries. -/
+def tableLd (len : Nat) : Nat :=
+  let rec go (fuel l ld : Nat) : Nat :=
+    match fuel with
+    | 0 => ld
+    | fuel + 1 => if l > 0 then go fuel (l / 4) (ld + 1) else ld
+  go (len + 1) len 0 + 1
+
+/-- `NewProofStructure` + `CommitmentsFromSecrets` succeed for attribute value `m`:
+    the (rescaled) difference is non-negative, the splitter accepts it and the squares fit in
+    `l_d` bits. `table = 0`: four squares (every non-negative difference below `2^(2·128)` splits);
+    otherwise the three-square table with `table` entries (factor must be 1). -/
+def rangeProvable (sign : Int) (factor : Nat) (bound m : Int) (table : Nat) : Bool :=
+  if sign ≠ 1 ∧ sign ≠ -1 then false else
+  if table = 0 then
+    if factor > 2 ^ 63 - 1 then false else
+    let d := sign * ((factor : Int) * m - bound)
+    decide (0 ≤ d) && decide (d < 2 ^ 256)
+  else
+    if factor ≠ 1 then false else
+    let d := sign * (4 * m - (4 * bound - 2))
+    decide (0 ≤ d) && decide (d < (table : Int)) && decide (d % 4 = 2)
+
 /-! ### issuance -/
 
 /-- `userCommitment(pk, secret, vPrime, msg)` times the keyshare contribution. -/
